@@ -151,7 +151,10 @@ ReplyFor(kind, n, s, pv) ==
 (***************************************************************************)
 Init ==
   /\ now = 0
-  /\ prov = [keys |-> << >>, cur |-> 0, gen |-> 0]   \* no valid key yet: the first Current() creates key 1
+  \* no key yet: the first Current() creates key 1.  (NewProvider() creates key 1
+  \* when the server starts; creating it at first use gives the same behaviours
+  \* up to a shift in time, and is the state the driver resets the provider to.)
+  /\ prov = [keys |-> << >>, cur |-> 0, gen |-> 0]
   /\ pool = << >>
   /\ sess = 0
   /\ used = {}
